@@ -354,6 +354,30 @@ def normalised_inverse_reifiable(first_output, model):
     return False
 
 
+def writes_uncanonical_role(first_output, model):
+    """F33: the first pass (with --canonicalize-roles --dereify-edges) wrote a role that canonicalisation rewrites: a
+    dereified edge laid out against its direction, whose inverse spelling has a normalisation (':mod-of' -> ':domain')."""
+    import penman
+    for t in penman.iterparse(first_output):
+        for _, (role, _tgt) in t.walk():
+            r = role.partition('~')[0]
+            if r != '/' and r in model.normalizations and model.is_role_inverted(r):
+                return True
+    return False
+
+
+def classify_non_idempotent(opts, streams, first_output, model):
+    """The key of a second-pass difference: one of the open known findings, else a new failure."""
+    if opts.get('--reify-attributes') and opts.get('--reify-edges') and has_inverted_reifiable_attribute(streams, model):
+        return 'F30-inverted-reifiable-attribute'
+    if opts.get('--canonicalize-roles') and opts.get('--reify-edges') and normalised_inverse_reifiable(first_output, model):
+        return 'F32-normalised-inverse-role-reified'
+    if (opts.get('--canonicalize-roles') and opts.get('--dereify-edges') and not opts.get('--reify-edges')
+            and writes_uncanonical_role(first_output, model)):
+        return 'F33-normalised-inverse-role-after-dereify'
+    return 'idempotence'
+
+
 def one_case(args):
     """Worker: returns a list of (kind, key, what, case) findings for one generated case."""
     idx, seed, tier = args[:3]
@@ -415,11 +439,7 @@ def one_case(args):
         elif stable and code == 0 and out:
             out2, code2, _ = run_cli_inprocess(argv, out, [])
             if out2 != out:
-                key = 'idempotence'
-                if opts.get('--reify-attributes') and opts.get('--reify-edges') and has_inverted_reifiable_attribute(streams, model):
-                    key = 'F30-inverted-reifiable-attribute'
-                elif opts.get('--canonicalize-roles') and opts.get('--reify-edges') and normalised_inverse_reifiable(out, model):
-                    key = 'F32-normalised-inverse-role-reified'
+                key = classify_non_idempotent(opts, streams, out, model)
                 findings.append(('fail', key, 'feeding the output back with the same options changes it', dict(case, first=out, second=out2)))
         # (c) content preserved without normalisation options
         no_norm = not any(opts.get(k) for k in NORM_FLAGS + ['reconfigure', 'rearrange', 'make_variables', 'triples', 'check'])
